@@ -143,7 +143,49 @@ func (g *Gen) twoTagData() (TT, PJ, PB) {
 	return t, j, b
 }
 
+// unknownGovernsAbsent: the unknown value stands for a key missing from a map at every depth and in every map
+// representation, with no hook: the outcome equals the plain outcome on the document that holds the value there.
+func unknownGovernsAbsent(o *Out) {
+	mk := func(rep, depth int, leaf map[string]interface{}) interface{} {
+		var cur interface{} = leaf
+		if rep == 1 {
+			t := map[string]string{}
+			for k, v := range leaf {
+				t[k] = fmt.Sprint(v)
+			}
+			cur = t
+		}
+		for d := depth; d > 0; d-- {
+			cur = map[string]interface{}{fmt.Sprintf("p%d", d): cur, "name": "web"}
+		}
+		return cur
+	}
+	for depth := 0; depth <= 3; depth++ {
+		sel := ""
+		for d := 1; d <= depth; d++ {
+			sel += fmt.Sprintf("p%d.", d)
+		}
+		for rep := 0; rep < 2; rep++ {
+			for _, u := range []interface{}{"v1", "", "5", "true"} {
+				without := mk(rep, depth, map[string]interface{}{"env": "prod"})
+				with := mk(rep, depth, map[string]interface{}{"env": "prod", "version": u})
+				for _, form := range []string{`%sversion == "v1"`, `%sversion != "v1"`, `%sversion is empty`, `%sversion is not empty`, `%sversion matches "^v"`, `%sversion == 5`, `"v" in %sversion`, `%sversion not matches "1"`, `%senv == prod and %sversion == "v1"`} {
+					text := strings.ReplaceAll(form, "%s", sel)
+					want := evalText(o, nil, text, with)
+					got := evalText(o, []OptSpec{{Kind: "unk", Unk: u}}, text, without)
+					o.count("govern:unknown-absent:" + norm(got))
+					if norm(got) != norm(want) {
+						o.finding(Finding{Property: "C18", Kind: "failing-input", What: fmt.Sprintf("the unknown value %q does not stand for the key missing at depth %d: %s, but %s on the document that holds it there", u, depth, got, want), Request: lastReq(o), Detail: text})
+						o.finding(Finding{Property: "C05", Kind: "failing-input", What: fmt.Sprintf("an absent key under the unknown value %q at depth %d gives %s, the value itself gives %s", u, depth, got, want), Request: lastReq(o), Detail: text})
+					}
+				}
+			}
+		}
+	}
+}
+
 func optsGovernLookups(g *Gen, o *Out, n int) {
+	unknownGovernsAbsent(o)
 	for i := 0; i < n; i++ {
 		// ---- hook
 		doc, _ := g.randJSONDoc(3, false).(map[string]interface{})
